@@ -458,7 +458,9 @@ def build_request(inp):
   }
   hp = []
   for _ in range(nm):
-    ls = [[0.7] * len(c["elements"]) if c["var_type"] == "categorical" else [0.4 * (max(c["elements"]) - min(c["elements"]))] for c in comps]
+    # inp["cat_ls_default"]: the categorical parameters still carry the unfitted default (a list of None per category - the library reads it as 1.0)
+    ls = [[None if inp.get("cat_ls_default") else 0.7] * len(c["elements"]) if c["var_type"] == "categorical" else [0.4 * (max(c["elements"]) - min(c["elements"]))]
+          for c in comps]
     hp.append({"alpha": 1.0, "length_scales": ls, "tikhonov": None, "task_length": 0.3 if tasks.size else None})
   params["model_info"] = GPModelInfo(hyperparameters=hp, max_simultaneous_af_points=777,
                                      nonzero_mean_info={"mean_type": "zero", "poly_indices": None},
